@@ -78,6 +78,39 @@ def bool_table(body, method, tags, expected, order_ok, extra_atoms=None):
     return True, "truth table over %s matches" % (tags,), sites
 
 
+def and_flush_rule(chk, P, key):
+    def and_flush():
+        b = P.impl_method(EMITTER, "emit_core::and::And<T, U>", "blocking_flush")
+        calls = b.calls_to(trait=EMITTER, name="blocking_flush")
+        tags = {}
+        for c in calls:
+            tags.setdefault(recv_tag(b, c), []).append(c)
+        if set(tags) != {"left", "right"}:
+            return False, "And::blocking_flush must flush left() and right(); found %s" % sorted(map(str, tags)), [], b.span
+        for t, cs in tags.items():
+            cnt = b.count_on_paths({c.bb for c in cs})
+            if cnt != (1, 1):
+                return False, ("And::blocking_flush flushes %s %s times per path; both sides must be flushed "
+                               "unconditionally (no short-circuit)" % (t, cnt)), [], cs[0].loc
+            for c in cs:
+                if not common.has_root(b.origin(c.args[1]), "param", 2):
+                    return False, "timeout given to %s does not derive from the timeout parameter" % t, [], c.loc
+        # the share each side gets is the timeout itself or a whole-Duration fraction of it: no detour through a coarser unit
+        for c in b.calls(normal_only=True):
+            if c.callee.get("name") in ("as_secs", "as_millis", "as_micros", "from_secs", "from_millis", "from_micros", "as_secs_f32", "as_secs_f64", "subsec_millis"):
+                return False, ("And::blocking_flush converts the timeout with %s at %s: splitting it in a coarser unit rounds each side's share down "
+                               "(1s / 2 becomes 0s), so a side that needs any time to flush reports failure under a short timeout" % (c.callee.get("name"), c.loc)), [], c.loc
+        # ... and never more than the caller allowed: the timeout is only ever divided (or passed on / reduced), not multiplied or added to
+        for c in b.calls(normal_only=True):
+            full = (c.callee.get("full") or c.callee.get("path") or "")
+            if c.callee.get("name") in ("mul", "add", "checked_mul", "checked_add", "saturating_mul", "saturating_add", "mul_f32", "mul_f64") and "Duration" in full:
+                return False, ("And::blocking_flush grows the timeout with %s at %s: the two sides together may then block longer than the caller allowed"
+                               % (c.callee.get("name"), c.loc)), [], c.loc
+        return bool_table(b, "blocking_flush", ["left", "right"], lambda a: a["left"] and a["right"],
+                          lambda d, ev: True)
+    chk.ob(key, "And::blocking_flush flushes both sides unconditionally and returns their conjunction", and_flush)
+
+
 def pipeline_rules(chk, P, pre):
     # ---------------- S1: pipeline ----------------------------------------------------------------
     def r1():
@@ -406,36 +439,7 @@ def run(chk):
         return True, "", [c.loc for c in calls]
     chk.ob("C01.S2.and:Emitter::emit", "And::emit delivers the same event to both sides exactly once on every path", and_emit)
 
-    def and_flush():
-        b = P.impl_method(EMITTER, "emit_core::and::And<T, U>", "blocking_flush")
-        calls = b.calls_to(trait=EMITTER, name="blocking_flush")
-        tags = {}
-        for c in calls:
-            tags.setdefault(recv_tag(b, c), []).append(c)
-        if set(tags) != {"left", "right"}:
-            return False, "And::blocking_flush must flush left() and right(); found %s" % sorted(map(str, tags)), [], b.span
-        for t, cs in tags.items():
-            cnt = b.count_on_paths({c.bb for c in cs})
-            if cnt != (1, 1):
-                return False, ("And::blocking_flush flushes %s %s times per path; both sides must be flushed "
-                               "unconditionally (no short-circuit)" % (t, cnt)), [], cs[0].loc
-            for c in cs:
-                if not common.has_root(b.origin(c.args[1]), "param", 2):
-                    return False, "timeout given to %s does not derive from the timeout parameter" % t, [], c.loc
-        # the share each side gets is the timeout itself or a whole-Duration fraction of it: no detour through a coarser unit
-        for c in b.calls(normal_only=True):
-            if c.callee.get("name") in ("as_secs", "as_millis", "as_micros", "from_secs", "from_millis", "from_micros", "as_secs_f32", "as_secs_f64", "subsec_millis"):
-                return False, ("And::blocking_flush converts the timeout with %s at %s: splitting it in a coarser unit rounds each side's share down "
-                               "(1s / 2 becomes 0s), so a side that needs any time to flush reports failure under a short timeout" % (c.callee.get("name"), c.loc)), [], c.loc
-        # ... and never more than the caller allowed: the timeout is only ever divided (or passed on / reduced), not multiplied or added to
-        for c in b.calls(normal_only=True):
-            full = (c.callee.get("full") or c.callee.get("path") or "")
-            if c.callee.get("name") in ("mul", "add", "checked_mul", "checked_add", "saturating_mul", "saturating_add", "mul_f32", "mul_f64") and "Duration" in full:
-                return False, ("And::blocking_flush grows the timeout with %s at %s: the two sides together may then block longer than the caller allowed"
-                               % (c.callee.get("name"), c.loc)), [], c.loc
-        return bool_table(b, "blocking_flush", ["left", "right"], lambda a: a["left"] and a["right"],
-                          lambda d, ev: True)
-    chk.ob("C01.S2.and:Emitter::blocking_flush", "And::blocking_flush flushes both sides unconditionally and returns their conjunction", and_flush)
+    and_flush_rule(chk, P, "C01.S2.and:Emitter::blocking_flush")
 
     # And / Or filters
     def and_filter():
